@@ -12,7 +12,8 @@ use verif_rt::{Ev, Role};
 const D: u32 = 1; // direct subscriber registered at the same point
 const C: u32 = 2; // the channeled subscriber
 
-/// end: how the subscription ends — 0 stop() only, 1 unsubscribe() by a thread then stop()
+/// end: how the subscription ends — 0 stop() only, 1 unsubscribe() by a thread then stop(),
+/// 2 unsubscribe() by a thread racing stop()
 pub fn check(r: &ExecResult, pol: Pol, gated: bool, end: u8) -> Vec<Finding> {
     let mut f = sanity(r);
     let p = pipe(r);
@@ -37,7 +38,7 @@ pub fn check(r: &ExecResult, pol: Pol, gated: bool, end: u8) -> Vec<Finding> {
         f.push(fnd("chan-direct-sub-affected", format!("direct subscriber saw [{}] instead of [{}]", fmt_stream(&d), fmt_stream(&p.expected_stream()))));
     }
     // the stream
-    let ended_by_unsub = end == 1;
+    let ended_by_unsub = end >= 1;
     match pol {
         Pol::Block => {
             if ended_by_unsub {
@@ -64,12 +65,18 @@ pub fn check(r: &ExecResult, pol: Pol, gated: bool, end: u8) -> Vec<Finding> {
     // flush: when unsubscribe()/stop() returns, everything accepted into its channel and not
     // displaced has been delivered, and nothing is delivered afterwards
     let subch: Vec<u32> = r.chans.iter().enumerate().filter(|(_, m)| elem_kind(m.elem) == "subch").map(|(i, _)| i as u32).collect();
-    let end_idx = if ended_by_unsub {
-        rets(r, "unsubscribe").filter(|x| x.a as u32 == C).map(|x| x.i).next()
-    } else {
-        rets(r, "stop").map(|x| x.i).next()
-    };
-    if let Some(e) = end_idx {
+    let mut ends: Vec<(usize, &str)> = vec![];
+    if ended_by_unsub {
+        if let Some(i) = rets(r, "unsubscribe").filter(|x| x.a as u32 == C).map(|x| x.i).next() {
+            ends.push((i, "unsubscribe()"));
+        }
+    }
+    if end != 1 {
+        if let Some(i) = rets(r, "stop").map(|x| x.i).next() {
+            ends.push((i, "stop()"));
+        }
+    }
+    for (e, what) in ends {
         if !timeout_before(r, e) {
             let consumer = tasks.first().copied();
             let mut accepted = 0i64;
@@ -86,11 +93,11 @@ pub fn check(r: &ExecResult, pol: Pol, gated: bool, end: u8) -> Vec<Finding> {
             if delivered_before != accepted - displaced {
                 f.push(fnd(
                     "chan-not-flushed",
-                    format!("{} notifications were queued for the channeled subscriber ({} displaced) but only {} had been delivered when {} returned", accepted, displaced, delivered_before, if ended_by_unsub { "unsubscribe()" } else { "stop()" }),
+                    format!("{} notifications were queued for the channeled subscriber ({} displaced) but only {} had been delivered when {} returned", accepted, displaced, delivered_before, what),
                 ));
             }
             if cs.iter().any(|x| x.0 > e) {
-                f.push(fnd("chan-delivery-after-end", format!("the channeled subscriber was called after {} had returned", if ended_by_unsub { "unsubscribe()" } else { "stop()" })));
+                f.push(fnd("chan-delivery-after-end", format!("the channeled subscriber was called after {} had returned", what)));
             }
         }
     }
@@ -114,7 +121,7 @@ pub fn scenarios(tier: Tier) -> Vec<Scenario> {
     let mut v = vec![];
     let mut add = |cap: usize, pol: Pol, np: u32, k: u32, gated: bool, end: u8, bound: u32| {
         let mut prog = producers(Program::new(StoreSpec::new(1, 4, Pol::Block)), np, k, |_, id| Op::Dispatch(Act::new(id)));
-        if end == 1 {
+        if end >= 1 {
             prog = prog.thread("unsub", vec![Op::Unsub(C)]);
         }
         let mut main = vec![
@@ -126,7 +133,11 @@ pub fn scenarios(tier: Tier) -> Vec<Scenario> {
             // let everything that can happen happen while the subscriber is parked, then release it
             main.extend([Op::Quiesce, Op::OpenGate(2, 64)]);
         }
-        main.extend([Op::JoinAll, Op::Stop]);
+        if end == 2 {
+            main.extend([Op::Stop, Op::JoinAll]);
+        } else {
+            main.extend([Op::JoinAll, Op::Stop]);
+        }
         prog = prog.main(main);
         v.push(scn(
             format!("C10/cap{}{}P{}k{}{}end{}", cap, pol.s(), np, k, if gated { "gated" } else { "" }, end),
@@ -142,6 +153,7 @@ pub fn scenarios(tier: Tier) -> Vec<Scenario> {
                 add(1, pol, 1, 2, false, 0, 2);
                 add(1, pol, 1, 3, true, 0, 2);
                 add(1, pol, 1, 2, false, 1, 2);
+                add(1, pol, 1, 2, false, 2, 2);
             }
             add(2, Pol::Oldest, 2, 1, false, 0, 2);
         }
@@ -150,8 +162,8 @@ pub fn scenarios(tier: Tier) -> Vec<Scenario> {
                 for cap in 1..=2usize {
                     for &(np, k) in &[(1u32, 2u32), (1, 3), (2, 1), (2, 2)] {
                         for gated in [false, true] {
-                            for end in 0..=1u8 {
-                                if gated && end == 1 {
+                            for end in 0..=2u8 {
+                                if gated && end >= 1 {
                                     continue;
                                 }
                                 let bound = if (np == 2 && k == 2) || k == 3 { 2 } else { 3 };
